@@ -371,7 +371,9 @@ def e1_configs(tier, kinds):
         # per-process merge buffer would show through its undefined pixels
         for kind in kinds:
             cfgs.append(CascadeHarness(kind=kind, start=2, pop=(0, 10, 11, 14, 15), W=2, flt=True))
-        cfgs.append(CascadeHarness(kind=k, start=2, pop=tuple(range(16)), W=2))
+        # three live level-1 parents + root with real merges (the full 16-leaf protocol is explored,
+        # without real I/O, by C01's thorough tier)
+        cfgs.append(CascadeHarness(kind=k, start=2, pop=(0, 1, 4, 5, 2, 10, 11), W=2, flt=True))
         cfgs.append(CascadeHarness(kind=k, start=1, pop=(0, 3), W=3))
         cfgs.append(CascadeHarness(kind=k, start=2, pop=(0, 1, 4, 5, 2, 3, 6, 7, 10), W=2, flt=True))
     return cfgs
